@@ -30,9 +30,10 @@ type producer struct {
 type env struct {
 	c         *Case
 	mu        sync.Mutex
-	execs     []int            // node executions in start order
+	execs     []int              // node executions in start order
 	brLog     map[[2]int][][]int // (node, branch index) -> outcomes in evaluation order
 	producers []*producer
+	sched     [][]string // batches of completed tasks (node keys) as taskManager.wait returned them (C03 trace hook)
 }
 
 func newEnv(c *Case) *env { return &env{c: c, brLog: map[[2]int][][]int{}} }
@@ -164,9 +165,18 @@ func keyedLambda[I, O any](e *env, idx int) *compose.Lambda {
 	panic("keyedLambda: kind " + spec.Kind)
 }
 
+var errNodeFailed = errors.New("node failed on purpose")
+
 func lambdaOf(e *env, idx int) *compose.Lambda {
 	spec := e.c.Nodes[idx]
 	name := nodeName(idx)
+	if spec.Fail {
+		return compose.TransformableLambda(func(ctx context.Context, in *schema.StreamReader[M]) (*schema.StreamReader[M], error) {
+			e.exec(idx)
+			in.Close()
+			return nil, errNodeFailed
+		})
+	}
 	switch spec.Kind {
 	case "xform":
 		return compose.TransformableLambda(func(ctx context.Context, in *schema.StreamReader[M]) (*schema.StreamReader[M], error) {
@@ -245,8 +255,49 @@ func branchOf(e *env, node, bi int, b *BranchSpec) *compose.GraphBranch {
 	}, ends)
 }
 
+func buildWorkflow(e *env) (compose.Runnable[M, M], error) {
+	c := e.c
+	wf := compose.NewWorkflow[M, M]()
+	nodes := make([]*compose.WorkflowNode, len(c.Nodes))
+	for i := range c.Nodes {
+		nodes[i] = wf.AddLambdaNode(nodeName(i), lambdaOf(e, i))
+	}
+	wire := func(n *compose.WorkflowNode, ins []InputSpec) {
+		for _, in := range ins {
+			var maps []*compose.FieldMapping
+			if in.Map == "to" {
+				maps = append(maps, compose.ToField(nodeName(in.From)))
+			}
+			switch in.Kind {
+			case "in":
+				n.AddInput(graphKey(in.From), maps...)
+			case "dep":
+				n.AddDependency(graphKey(in.From))
+			case "data":
+				n.AddInputWithOptions(graphKey(in.From), maps, compose.WithNoDirectDependency())
+			}
+		}
+	}
+	for i := range c.Nodes {
+		wire(nodes[i], c.Nodes[i].Inputs)
+	}
+	wire(wf.End(), c.EndInputs)
+	for bi := range c.StartBranches {
+		wf.AddBranch(compose.START, branchOf(e, START, bi, &c.StartBranches[bi]))
+	}
+	for i := range c.Nodes {
+		for bi := range c.Nodes[i].Branches {
+			wf.AddBranch(nodeName(i), branchOf(e, i, bi, &c.Nodes[i].Branches[bi]))
+		}
+	}
+	return wf.Compile(context.Background())
+}
+
 func build(e *env) (compose.Runnable[M, M], error) {
 	c := e.c
+	if c.Mode == "workflow" {
+		return buildWorkflow(e)
+	}
 	g := compose.NewGraph[M, M]()
 	for i, n := range c.Nodes {
 		var opts []compose.GraphAddNodeOpt
@@ -317,6 +368,8 @@ func runCase(e *env) runOut {
 		return runOut{class: "compile_err", msg: err.Error()}
 	}
 	done := make(chan runOut, 1)
+	compose.VerifC03Begin(0, true)
+	defer compose.VerifC03End()
 	go func() {
 		var out runOut
 		if p := lib.Recover(func() { out = callAndRead(e, r) }); p != nil {
@@ -326,10 +379,43 @@ func runCase(e *env) runOut {
 	}()
 	select {
 	case out := <-done:
+		e.sched = scheduleOf(compose.VerifC03Events(), c19Eager(e.c))
 		return out
 	case <-time.After(15 * time.Second):
 		return runOut{class: "hang", msg: "run or read did not return within 15s"}
 	}
+}
+
+func c19Eager(c *Case) bool { return c.Mode == "workflow" }
+
+// scheduleOf rebuilds the batches of completed tasks from the taskManager protocol trace of the
+// top-level run (task manager 0): a "recv" event is one task taken from the done channel by
+// waitOne, "empty" ends a waitAll. In eager mode wait() returns after one task.
+func scheduleOf(evs []compose.VerifC03Event, eager bool) [][]string {
+	var out [][]string
+	var cur []string
+	for _, ev := range evs {
+		if ev.TM != 0 {
+			continue
+		}
+		switch ev.Kind {
+		case "recv":
+			if eager {
+				out = append(out, []string{ev.Key})
+			} else {
+				cur = append(cur, ev.Key)
+			}
+		case "empty":
+			if !eager && len(cur) > 0 {
+				out = append(out, cur)
+				cur = nil
+			}
+		}
+	}
+	if len(cur) > 0 {
+		out = append(out, cur)
+	}
+	return out
 }
 
 func callAndRead(e *env, r compose.Runnable[M, M]) runOut {
